@@ -4,6 +4,8 @@ import (
 	"encoding/binary"
 	"fmt"
 	"net"
+	"strings"
+	"sync"
 	"time"
 
 	"hop.computer/hop/transport"
@@ -12,7 +14,7 @@ import (
 // C15 — a session's peer address moves only on authentic, fresh packets.
 
 func init() {
-	Register(&Scenario{Name: "roaming", Property: "C15", Fn: scRoaming})
+	Register(&Scenario{Name: "roaming", Property: "C15", Fn: scRoaming, Yields: true})
 }
 
 func scRoaming(r *Run) {
@@ -64,7 +66,24 @@ func scRoaming(r *Run) {
 		prevPeer  string
 		changedIn uint64 // step number in which peer last changed
 		senderEP  *Endpoint
+		// the application message carried by the packet that last moved the peer, and the transmission count at
+		// the moment this side's application was handed that message (0 = not yet)
+		moveMsg string
+		readSeq uint64
 	}
+	// which application message each data packet carries: noted when the packet is made, in the goroutine of the
+	// harness call that writes it
+	var cmu sync.Mutex
+	pendingWrite := map[uint64]string{}
+	seqMsg := map[uint64]string{}
+	noteCreate := func(d *Dgram) {
+		cmu.Lock()
+		if p, ok := pendingWrite[Goid()]; ok && len(d.Data) > 0 && d.Data[0] == 0x10 {
+			seqMsg[d.Seq] = p
+		}
+		cmu.Unlock()
+	}
+	srv.EP.OnCreate, tc.EP.OnCreate = noteCreate, noteCreate
 	sSide := &side{name: "server", ep: srv.EP, model: newReplayModel(), peer: tc.Addr.String(), senderEP: tc.EP}
 	cSide := &side{name: "client", ep: tc.EP, model: newReplayModel(), peer: srv.Addr.String(), senderEP: srv.EP}
 	sSide.prevPeer, cSide.prevPeer = sSide.peer, cSide.peer
@@ -98,6 +117,9 @@ func scRoaming(r *Run) {
 				sd.prevPeer = sd.peer
 				sd.peer = d.From.String()
 				sd.changedIn = step
+				cmu.Lock()
+				sd.moveMsg, sd.readSeq = seqMsg[d.Seq], 0
+				cmu.Unlock()
 				r.Logf("model: %s peer -> %s (authentic fresh #%d ctr=%d)", sd.name, sd.peer, d.ID, ctr)
 				r.Probe("peer-address-moved")
 			}
@@ -133,12 +155,32 @@ func scRoaming(r *Run) {
 		// emitted just before the endpoint processed that delivery
 		if !ok && inStep && sd.changedIn == step && dst == sd.prevPeer {
 			ok = true
+			// ... but not once the application has been handed the very message whose packet moved the peer:
+			// what is sealed after that is "subsequent traffic"
+			cmu.Lock()
+			late := sd.readSeq != 0 && d.Seq > sd.readSeq
+			msg := sd.moveMsg
+			cmu.Unlock()
+			if late {
+				r.Violate("C15/previous-address-used-after-delivery", "%s sent session traffic (#%d) to its previous peer %s although its application had already been handed %q, the message of the authentic fresh packet that came from %s", sd.name, d.ID, dst, msg, sd.peer)
+				return
+			}
 		}
 		if !ok {
 			r.Violate("C15/traffic-redirected", "%s sent session traffic (#%d) to %s; the last authentic fresh packet it received came from %s (previous peer %s)", sd.name, d.ID, dst, sd.peer, sd.prevPeer)
 		}
 	}
 
+	write := func(wr func([]byte) error, msg string) {
+		g := Goid()
+		cmu.Lock()
+		pendingWrite[g] = msg
+		cmu.Unlock()
+		wr([]byte(msg))
+		cmu.Lock()
+		delete(pendingWrite, g)
+		cmu.Unlock()
+	}
 	// background traffic in both directions so that destinations are observable
 	stop := make(chan struct{})
 	traffic := func(name string, wr func([]byte) error) {
@@ -149,7 +191,7 @@ func scRoaming(r *Run) {
 					return
 				default:
 				}
-				wr([]byte(fmt.Sprintf("%s-%d", name, i)))
+				write(wr, fmt.Sprintf("%s-%d", name, i))
 				time.Sleep(time.Duration(10+r.Intn(name, 60)) * time.Millisecond)
 			}
 		})
@@ -175,7 +217,8 @@ func scRoaming(r *Run) {
 			}
 		}
 	}
-	drain := func(rd func([]byte) (int, error), dl func(time.Time) error) {
+	echo := r.Intn("echo", 2) == 0 // the applications answer what they read
+	drain := func(sd *side, rd func([]byte) (int, error), dl func(time.Time) error, wr func([]byte) error) {
 		r.Go(func() {
 			buf := make([]byte, 2048)
 			for {
@@ -185,15 +228,33 @@ func scRoaming(r *Run) {
 				default:
 				}
 				dl(time.Now().Add(200 * time.Millisecond))
-				rd(buf)
+				k, err := rd(buf)
+				if err == nil && k > 0 {
+					msg := string(buf[:k])
+					cmu.Lock()
+					if sd.moveMsg != "" && msg == sd.moveMsg && sd.readSeq == 0 {
+						sd.readSeq = n.Dseq()
+					}
+					cmu.Unlock()
+					if echo && !strings.HasPrefix(msg, "re:") {
+						write(wr, "re:"+msg)
+					}
+				}
 				if maxBuf > 0 {
 					time.Sleep(time.Duration(r.Intn("slow-app", 400)) * time.Millisecond)
 				}
 			}
 		})
 	}
-	drain(h.ReadMsg, h.SetReadDeadline)
-	drain(tc.C.ReadMsg, tc.C.SetReadDeadline)
+	drain(sSide, h.ReadMsg, h.SetReadDeadline, h.WriteMsg)
+	drain(cSide, tc.C.ReadMsg, tc.C.SetReadDeadline, tc.C.WriteMsg)
+	// schedule perturbation in the receive and send paths of the sessions
+	if r.Intn("yield", 2) == 0 {
+		fns := []string{"transport.(*SessionState)", "transport.(*Server).handleSessionMessage", "transport.(*Client).handleSessionMessage", "transport.(*Handle)", "transport.(*Server)", "transport.(*Client)", "transport."}
+		r.ArmYields([]string{fns[r.Intn("yield", len(fns))]}, 1+r.Intn("yield", 6), 1+r.Intn("yield", 60), []float64{0.05, 0.3, 1}[r.Intn("yield", 3)])
+		r.YieldsRescheduleOnly() // (the network is driven step by step: a sleeping goroutine would look like a finished one)
+		r.YieldsOn(true)
+	}
 
 	atk := Addr(66, 6666)
 	nActs := 5 + r.Intn("cfg", 40)
